@@ -325,4 +325,101 @@ def mk (coords : List V3) (cs : Rat) (box : Option V3) (sel : Option (List Bool)
     | [] => some (.error .valueError)
     | p :: ps => some (.ok (build coords cs box sel p ps))
 
+/-! ## Periodicity with a general (invertible) box matrix
+
+`box[0], box[1], box[2]` are the rows.  `move_inside_box`: `fractions = coord @ inv(box)`, `fractions % 1`,
+`@ box`; `repeat_box_coord`: add `i*box[0] + j*box[1] + k*box[2]`.  The cell list built for such a box
+is an ordinary (non-periodic, `box := none`) cell list over the moved-inside + replicated coordinates with
+`n` = original length; the periodic query moves the query point inside first and maps positions `% n`. -/
+
+structure M3 where
+  a : V3
+  b : V3
+  c : V3
+  deriving DecidableEq, Repr
+
+def M3.det (B : M3) : Rat :=
+  B.a.x * (B.b.y * B.c.z - B.b.z * B.c.y) - B.a.y * (B.b.x * B.c.z - B.b.z * B.c.x) +
+  B.a.z * (B.b.x * B.c.y - B.b.y * B.c.x)
+
+/-- `numpy.linalg.inv(box)` as adjugate / determinant. -/
+def M3.inv (B : M3) : M3 :=
+  let d := B.det
+  ⟨⟨(B.b.y * B.c.z - B.b.z * B.c.y) / d, (B.a.z * B.c.y - B.a.y * B.c.z) / d, (B.a.y * B.b.z - B.a.z * B.b.y) / d⟩,
+   ⟨(B.b.z * B.c.x - B.b.x * B.c.z) / d, (B.a.x * B.c.z - B.a.z * B.c.x) / d, (B.a.z * B.b.x - B.a.x * B.b.z) / d⟩,
+   ⟨(B.b.x * B.c.y - B.b.y * B.c.x) / d, (B.a.y * B.c.x - B.a.x * B.c.y) / d, (B.a.x * B.b.y - B.a.y * B.b.x) / d⟩⟩
+
+/-- row vector times matrix: `np.matmul(v, M)` -/
+def vecMul (v : V3) (M : M3) : V3 :=
+  ⟨v.x * M.a.x + v.y * M.b.x + v.z * M.c.x, v.x * M.a.y + v.y * M.b.y + v.z * M.c.y,
+   v.x * M.a.z + v.y * M.b.z + v.z * M.c.z⟩
+
+/-- `fractions % 1` -/
+def fracV (f : V3) : V3 := ⟨f.x - (f.x.floor : Int), f.y - (f.y.floor : Int), f.z - (f.z.floor : Int)⟩
+
+/-- `move_inside_box(coord, box)` -/
+def wrapG (B : M3) (p : V3) : V3 := vecMul (fracV (vecMul p B.inv)) B
+
+/-- one translation of `repeat_box_coord` -/
+def shiftG (B : M3) (s : I3) (p : V3) : V3 :=
+  ⟨p.x + s.i * B.a.x + s.j * B.b.x + s.k * B.c.x, p.y + s.i * B.a.y + s.j * B.b.y + s.k * B.c.y,
+   p.z + s.i * B.a.z + s.j * B.b.z + s.k * B.c.z⟩
+
+def replicateG (B : M3) (ps : List V3) : List V3 :=
+  shifts.flatMap fun s => ps.map (shiftG B s)
+
+def allCoordsG (coords : List V3) (B : M3) : List V3 := replicateG B (coords.map (wrapG B))
+
+def buildG (coords : List V3) (cs : Rat) (B : M3) (sel : Option (List Bool)) (p : V3) (ps : List V3) : CL :=
+  { coord := allCoordsG coords B, n := coords.length,
+    sel := selMask sel coords.length,
+    cs := cs,
+    mn := ⟨lmin p.x (ps.map (·.x)), lmin p.y (ps.map (·.y)), lmin p.z (ps.map (·.z))⟩,
+    mx := ⟨lmax p.x (ps.map (·.x)), lmax p.y (ps.map (·.y)), lmax p.z (ps.map (·.z))⟩,
+    box := none }
+
+/-- `CellList(coords, cs, periodic=True, box=B, selection)` for a general box matrix
+(singular box: numpy raises `LinAlgError`, not modelled: `none`). -/
+def mkG (coords : List V3) (cs : Rat) (B : M3) (sel : Option (List Bool)) : Option (Except Err CL) :=
+  match selError coords sel with
+  | some e => some (.error e)
+  | none =>
+    if B.det = 0 then none else
+    if cs ≤ 0 then some (.error .valueError) else
+    match allCoordsG coords B with
+    | [] => some (.error .valueError)
+    | p :: ps => some (.ok (buildG coords cs B sel p ps))
+
+namespace CL
+
+/-- periodic `get_atoms` for one query with a general box: move the query inside, query the
+replicated array, `% n`. -/
+def atomsOneG (c : CL) (B : M3) (q : V3) (r : Rat) : List Nat := (c.atomsOne (wrapG B q) r).map (· % c.n)
+
+def cellsOneG (c : CL) (B : M3) (q : V3) (R : Int) : List Nat := (c.cellsOne (wrapG B q) R).map (· % c.n)
+
+def modRows (c : CL) (r : Option (Except Err (List (List Nat)))) : Option (Except Err (List (List Nat))) :=
+  match r with
+  | some (.ok rows) => some (.ok (rows.map fun row => row.map (· % c.n)))
+  | r => r
+
+def atomsBatchGWith (c : CL) (sc : CL → V3 → Int → List (V3 × Nat)) (B : M3) (qs : List V3) (rad : Rad Rat) :=
+  c.modRows (c.atomsBatchWith sc (qs.map (wrapG B)) rad)
+
+def cellsBatchGWith (c : CL) (sc : CL → V3 → Int → List (V3 × Nat)) (B : M3) (qs : List V3) (rad : Rad Int) :=
+  c.modRows (c.cellsBatchWith sc (qs.map (wrapG B)) rad)
+
+/-- periodic `create_adjacency_matrix` (general box): the stored, already moved-inside coordinates of the
+central image are the query points (and are moved inside once more by `get_atoms`). -/
+def adjacencyGWith (c : CL) (sc : CL → V3 → Int → List (V3 × Nat)) (B : M3) (thr : Rat) :
+    Option (Except Err (List (List Nat))) :=
+  if thr < 0 then some (.error .valueError) else
+  let base := c.coord.take c.n
+  let qs := (base.zip c.sel).filterMap fun ps => if ps.2 then some ps.1 else none
+  match c.atomsBatchGWith sc B qs (.scalar thr) with
+  | some (.ok rows) => some (.ok (scatter c.sel rows))
+  | r => r
+
+end CL
+
 end BiotiteModel.C14
